@@ -147,6 +147,19 @@ fn lark_specs(m: usize, n: Option<usize>, rng: &mut Rng) -> Vec<Spec> {
             out.push(Spec { name: format!("from_regex:{rx_el}{rq}"), grammar: GCase::regex("c09", &format!("{rx_atom}{rq}")), open: vec![], close: vec![], elems: seq.clone(), m, n });
         }
     }
+    // elements that can themselves be empty: with x{m,n} over such an element every size from 0 up to n times the
+    // element's longest form is derivable (empty copies fill up to the lower bound), whatever m is
+    let q = quant(m, n, 1);
+    for (lark_el, unit, per) in [("\"a\"?", b"a".to_vec(), 1usize), ("[\"ab\"]", b"ab".to_vec(), 1), ("\"a\"{0,2}", b"a".to_vec(), 2)] {
+        let n_eff = n.map(|n| n * per);
+        let total = n_eff.map(|n| n + 4).unwrap_or(m + 7);
+        let seq: Vec<Vec<u8>> = (0..total).map(|_| unit.clone()).collect();
+        out.push(Spec { name: format!("rule-nullable-element:({lark_el}){q}"), grammar: GCase::lark("c09", &format!("start: \"<\" x{q} \">\"\nx: {lark_el}\n")), open: b"<".to_vec(), close: b">".to_vec(), elems: seq.clone(), m: 0, n: n_eff });
+        if m % 2 == 0 {
+            // the same repetition used from two places
+            out.push(Spec { name: format!("rule-nullable-element-shared:({lark_el}){q}"), grammar: GCase::lark("c09", &format!("start: \"<\" r \">\" | \"(\" r \")\"\nr: x{q}\nx: {lark_el}\n")), open: b"<".to_vec(), close: b">".to_vec(), elems: seq, m: 0, n: n_eff });
+        }
+    }
     out
 }
 
